@@ -105,6 +105,9 @@ def build(cs):
     s = f.createVariable('S0', 'f', ())
     s[...] = 2.5
     f.title = 'case %d' % cs['tid']
+    # empty strings are attribute values too
+    f.comment = ''
+    c.long_name = ''
     f.nint = np.int32(7)
     f.rflt = 3.25
     f.iarr = np.array([4, 5, 6], 'i')
